@@ -58,6 +58,26 @@ pub assume_specification<'a, K: Eq + core::hash::Hash + core::borrow::Borrow<Q>,
             None => !vstd::std_specs::hash::contains_borrowed_key(old(m)@, k) && *final(m) == *old(m),
         }),
 ;
+/// std contracts of small `Option` / `bool` combinators that a refactor is likely to introduce (so that the woven text
+/// of a function that starts using them stays inside the decidable subset instead of degrading its recipe, W11)
+#[verifier::allow(undeclared_external_trait)]
+pub assume_specification<T, F: FnOnce(T) -> bool + core::marker::Destruct> [Option::<T>::is_some_and] (o: Option<T>, f: F) -> (r: bool)
+    requires o is Some ==> f.requires((o->0,)),
+    ensures o is None ==> !r, o is Some ==> f.ensures((o->0,), r);
+#[verifier::allow(undeclared_external_trait)]
+pub assume_specification<T, F: FnOnce(T) -> bool + core::marker::Destruct> [Option::<T>::is_none_or] (o: Option<T>, f: F) -> (r: bool)
+    requires o is Some ==> f.requires((o->0,)),
+    ensures o is None ==> r, o is Some ==> f.ensures((o->0,), r);
+#[verifier::allow(undeclared_external_trait)]
+pub assume_specification<T, P: FnOnce(&T) -> bool + core::marker::Destruct> [Option::<T>::filter] (o: Option<T>, p: P) -> (r: Option<T>)
+    requires o is Some ==> p.requires((&o->0,)),
+    ensures o is None ==> r is None, o is Some ==> (p.ensures((&o->0,), true) && r == o) || (p.ensures((&o->0,), false) && r is None);
+#[verifier::allow(undeclared_external_trait)]
+pub assume_specification<T, U, F: FnOnce(T) -> U + core::marker::Destruct> [Option::<T>::map_or] (o: Option<T>, default: U, f: F) -> (r: U)
+    requires o is Some ==> f.requires((o->0,)),
+    ensures o is None ==> r == default, o is Some ==> f.ensures((o->0,), r);
+pub assume_specification<T> [bool::then_some] (b: bool, t: T) -> (r: Option<T>)
+    ensures r == (if b { Some(t) } else { None::<T> });
 /// std contract of `Option::get_or_insert_with`: the slot keeps its value or receives `f()`, and the returned
 /// reference is the slot's content (used by the pinned `Attributes::doc`; kept so that code using it stays decidable)
 #[verifier::allow(undeclared_external_trait)]
